@@ -55,7 +55,7 @@ namespace
     value createvehicle_array(runtime& runtime, value::cref right)
     {
         auto arr = right.data<d_array>();
-        if (!arr->check_type(runtime, std::array<sqf::runtime::type, 5>{ t_string(), t_array(), t_array(), t_string(), }))
+        if (!arr->check_type(runtime, std::array<sqf::runtime::type, 5>{ t_string(), t_array(), t_array(), t_scalar(), t_string() }))
         {
             return {};
         }
@@ -90,9 +90,12 @@ namespace
             }
         }
         auto veh = object::create(runtime, conf, true);
+        // random offset within the placement radius (none for a radius of 0)
+        auto range = sqf::runtime::util::round_to<int>(radius * 2);
+        auto spread = [range, radius]() -> float { return range > 0 ? (std::rand() % range) - radius : 0.0f; };
         veh->position({
-            position->at(0).data<d_scalar, float>() + ((std::rand() % static_cast<int>(radius * 2)) - radius),
-            position->at(1).data<d_scalar, float>() + ((std::rand() % static_cast<int>(radius * 2)) - radius),
+            position->at(0).data<d_scalar, float>() + spread(),
+            position->at(1).data<d_scalar, float>() + spread(),
             position->at(2).data<d_scalar, float>()
             });
         return std::make_shared<d_object>(veh);
@@ -176,7 +179,10 @@ namespace
             return {};
         }
         auto position = right.data<d_array>();
-        position->check_type(runtime, t_scalar(), 3);
+        if (!position->check_type(runtime, t_scalar(), 3))
+        {
+            return {};
+        }
         auto inner = veh->value();
         inner->position({
             position->at(0).data<d_scalar, float>(),
@@ -209,7 +215,10 @@ namespace
             return {};
         }
         auto velocity = right.data<d_array>();
-        velocity->check_type(runtime, t_scalar(), 3);
+        if (!velocity->check_type(runtime, t_scalar(), 3))
+        {
+            return {};
+        }
         auto inner = veh->value();
         inner->velocity({
             velocity->at(0).data<d_scalar, float>(),
@@ -220,6 +229,11 @@ namespace
     }
     value domove_object_array(runtime& runtime, value::cref left, value::cref right)
     {
+        if (left.data<d_object>()->is_null())
+        {
+            runtime.__logmsg(err::ExpectedNonNullValueWeak(runtime.context_active().current_frame().diag_info_from_position()));
+            return {};
+        }
         auto obj = left.data<d_object>()->value();
         if (obj->is_vehicle())
         {
@@ -238,6 +252,11 @@ namespace
             if (!arr->at(i).is<t_object>())
             {
                 runtime.__logmsg(err::ExpectedArrayTypeMissmatch(runtime.context_active().current_frame().diag_info_from_position(), i, t_object(), arr->at(i).type()));
+                errflag = true;
+            }
+            else if (arr->at(i).data<d_object>()->is_null())
+            {
+                runtime.__logmsg(err::ExpectedNonNullValueWeak(runtime.context_active().current_frame().diag_info_from_position()));
                 errflag = true;
             }
             else if (arr->at(i).data<d_object>()->value()->is_vehicle())
@@ -262,7 +281,7 @@ namespace
         auto grp = left.data<d_group>();
         auto arr = right.data<d_array>();
         
-        if (arr->check_type(runtime, std::array<sqf::runtime::type, 5> { t_string(), t_array(), t_array(), t_scalar(), t_string() }))
+        if (!arr->check_type(runtime, std::array<sqf::runtime::type, 5> { t_string(), t_array(), t_array(), t_scalar(), t_string() }))
         {
             return {};
         }
@@ -297,9 +316,12 @@ namespace
             }
         }
         auto veh = object::create(runtime, conf, false);
+        // random offset within the placement radius (none for a radius of 0)
+        auto range = sqf::runtime::util::round_to<int>(radius * 2);
+        auto spread = [range, radius]() -> float { return range > 0 ? (std::rand() % range) - radius : 0.0f; };
         veh->position({
-            position->at(0).data<d_scalar, float>() + ((std::rand() % static_cast<int>(radius * 2)) - radius),
-            position->at(1).data<d_scalar, float>() + ((std::rand() % static_cast<int>(radius * 2)) - radius),
+            position->at(0).data<d_scalar, float>() + spread(),
+            position->at(1).data<d_scalar, float>() + spread(),
             position->at(2).data<d_scalar, float>()
             });
         return std::make_shared<d_object>(veh);
@@ -1102,7 +1124,7 @@ void sqf::operators::ops_object(sqf::runtime::runtime& runtime)
     runtime.register_sqfop(unary("typeOf", t_object(), "Returns the config class name of given object.", typeof_object));
     runtime.register_sqfop(unary("createVehicle", t_array(), "Creates an empty object of given classname type.", createvehicle_array));
     runtime.register_sqfop(binary(4, "createVehicle", t_string(), t_array(), "Creates an empty object of given classname type.", createvehicle_string_array));
-    runtime.register_sqfop(binary(4, "createVehicleLocal", t_any(), t_any(), "Creates an empty object of given classname type.", createvehicle_string_array));
+    runtime.register_sqfop(binary(4, "createVehicleLocal", t_string(), t_array(), "Creates an empty object of given classname type.", createvehicle_string_array));
     runtime.register_sqfop(unary("deleteVehicle", t_object(), "Deletes an object.", deletevehicle_array));
     runtime.register_sqfop(unary("position", t_object(), "Returns the object position in format PositionAGLS. Z value is height over the surface underneath.", position_object));
     runtime.register_sqfop(unary("getPos", t_object(), "Returns the object position in format PositionAGLS. Z value is height over the surface underneath.", position_object));
